@@ -61,6 +61,40 @@ fn khi_case(s: &mut Sink, name: &str, l: &InvLink, h: u8, t: u8, red: bool, bigr
     } else { s.eval_only(&desc, true); }
 }
 
+/// the same complex through the builder's public switches (deferred delooping / deferred elimination / no preprocessing):
+/// whatever the route, the homology must be that of the default route (and of the Lean cone reference)
+fn builder_routes(s: &mut Sink, r: &mut Rng, name: &str, l: &InvLink, h: u8, red: bool) {
+    let (hh, tt) = (FF2::from(h as i64), FF2::zero());
+    let table = |c: &KhIComplex<FF2>| -> Vec<(isize, usize)> { let kh = KhIHomology::<FF2>::from(c); kh.support().map(|i| (i, kh.get(i).rank())).filter(|x| x.1 > 0).collect() };
+    let l0 = l.clone();
+    let Some(Some(base)) = guard_timeout(120, move || table(&KhIComplex::<FF2>::new(&l0, &hh, &tt, red))) else { return };
+    for _ in 0..2 {
+        let (ad, ae, pre) = match r.below(4) { 0 => (false, true, true), 1 => (true, false, true), 2 => (false, false, true), _ => (true, true, false) };
+        let desc = format!("{} h={} reduced={} [{}] auto_deloop={} auto_elim={} preprocess={}", link_txt(l.link()), h, red as u8, name, ad, ae, pre);
+        let l1 = l.clone();
+        let got = guard_timeout(120, move || {
+            let mut b = SymTngBuilder::<FF2>::new(&l1, &hh, &tt, red);
+            b.auto_deloop = ad; b.auto_elim = ae;
+            if pre { b.preprocess(); }
+            b.process_all();
+            b.finalize();
+            let c = b.into_khi_complex();
+            let mut ok = true;
+            for i in c.support() { for x in c[i].raw_gens().iter() { let z = KhIChain::<FF2>::from(*x); if !c.d(i + 1, &c.d(i, &z)).is_zero() { ok = false; } } }
+            (ok, table(&c))
+        });
+        match got {
+            Some(Some((dd, t))) => {
+                s.oracle(dd, "the involutive complex built through the builder's public switches is a chain complex (D∘D = 0)", &desc, "");
+                s.oracle(t == base, "the involutive homology does not depend on the builder route (deferred delooping / elimination / preprocessing)", &desc, &format!("{:?} vs default {:?}", t, base));
+            }
+            _ => s.oracle(false, "the symmetric builder's public route terminates without panic on a loadable diagram", &desc, "panic/timeout"),
+        }
+        s.eval_only(&desc, true);
+        s.count("builder-route");
+    }
+}
+
 fn kh_without_tau(s: &mut Sink, name: &str, l: &InvLink, h: u8, red: bool, with_model: bool) {
     let desc = format!("{} h={} reduced={} [{}]", link_txt(l.link()), h, red as u8, name);
     let (hh, tt) = (FF2::from(h as i64), FF2::zero());
@@ -120,6 +154,7 @@ fn main() {
                     }
                 }
                 for h in [0u8, 1] { for red in [false, true] { guarded_case(&mut s, vn, |s| kh_without_tau(s, vn, il, h, red, true)); } }
+                { let h = r.below(2) as u8; let red = r.bool(); guarded_case(&mut s, vn, |s| builder_routes(s, &mut r, vn, il, h, red)); }
             }
         }
         // ssi
